@@ -104,3 +104,11 @@ chk("C05", "exploration",
     "Oracle: no sanitizer report, signal, hang (no exit within 5x the watchdog on a solitary re-run) or resource blow-up; exit status is free.",
     "Quick samples one instance per field kind; thorough mutates every field. Compressed metadata is reached only by byte mutation. ASan red zones miss far out-of-bounds accesses.",
     "structure-aware field mutation + ASan/UBSan walk harness and CLI replay", "3/C05")
+chk("C10", "exploration",
+    "For tool-written images in every compressor and for field-mutated writer images (including two inodes that share a data location with different size words) a catalogue of self-contained reader queries "
+    "(inode by reference incl. references into the middle of records / beyond the block, directory listing, path resolution, positional read, block, fragment, stream, xattr set, id lookup, raw metadata "
+    "seek+read; valid and invalid arguments) is answered once by freshly created readers per query. Histories of queries (random, failing queries in between, repeats, same/neighbouring metadata blocks) then run "
+    "on one long-lived set of reader objects in an ASan harness; every (status, payload hash) must equal the fresh answer. A mismatch is minimised to the shortest failing history. The hook log counts cache "
+    "hits/misses so the evidence shows the caches were exercised; the stream, positional and per-block APIs are compared on every tool-written file.",
+    "The DOT_ENTRIES directory cache is documented as stateful and not used; cursor APIs are exercised as seek+read pairs. Histories are sampled, not enumerated.",
+    "history replay against fresh-object reference answers (shadow oracle)", "3/C10")
